@@ -242,7 +242,11 @@ def extract_branch_results_with_internals(net, branch_results, table_name,
             pt = placement_table[connected_ind]
 
             for i, (res_name, entry) in enumerate(res_mean_hydraulics):
-                res_table[res_name].values[pt] = res[i + 3][connected_ind] / num_internals
+                if entry == "dp_frict_loss":
+                    # the friction loss of an element is the sum over its sections, not their mean
+                    res_table[res_name].values[pt] = res[i + 3][connected_ind]
+                else:
+                    res_table[res_name].values[pt] = res[i + 3][connected_ind] / num_internals
         if len(res_branch) > 0:
             # the sections of one element are contiguous in the pit and the elements appear in
             # table row order, so the last section of table row r is the r-th position at which
